@@ -226,10 +226,15 @@ def _check_tierwise(case):
     tiers, lo, hi, op = case
     tg = Textgrid(lo, hi)
     objs = []
-    for kind, name, entries in tiers:
-        t = (IT if kind == "I" else PT)(name, list(entries), lo, hi)
+    uniform = True
+    for tt in tiers:
+        kind, name, entries = tt[:3]
+        tlo, thi = tt[3] if len(tt) > 3 else (lo, hi)  # a tier's own span may be narrower than the textgrid's
+        uniform = uniform and (tlo, thi) == (lo, hi)
+        t = (IT if kind == "I" else PT)(name, list(entries), tlo, thi)
         objs.append(t)
         tg.addTier(t)
+    tiers = tuple(tt[:3] for tt in tiers)
     k = op[0]
     if k == "crop":
         f_tg = lambda: tg.crop(op[1], op[2], op[3], op[4])
@@ -267,7 +272,7 @@ def _check_tierwise(case):
             if canon(t_exp) != canon(t_got):
                 msg = f"tier {t_got.name}: textgrid-level result {canon(t_got)} != per-tier result {canon(t_exp)}"
                 break
-    if msg is None and must_validate:
+    if msg is None and must_validate and uniform:
         v = call(r.validate, "silence")
         if v[0] != "ok" or v[1] is not True:
             msg = f"validate() is not True: textgrid span ({r.minTimestamp},{r.maxTimestamp}), tier spans {[(t.minTimestamp, t.maxTimestamp) for t in r.tiers]}"
@@ -304,6 +309,18 @@ def _tierwise_cases(quick):
                 tiers = (("I", "a", D.labelled(s1)), ("P", "p", D.labelled_points(p)), ("I", "b", D.labelled(s2, "x")))
                 for op in ops:
                     yield (tiers, 0.0, 4.0, op)
+    # tiers whose own spans are narrower than the textgrid's, in several orders: an argument adjusted for one tier must not
+    # leak into the next tier
+    short_sets = D.interval_sets((0.0, 1.0, 2.0), 2)
+    hops = [o for o in ops if o[0] != "shift"][:: 2 if quick else 1]
+    for s1 in short_sets:
+        for s2 in sets[:: stride * 2]:
+            ta = ("I", "short", D.labelled(s1), (0.0, 2.0))
+            tb = ("I", "long", D.labelled(s2, "x"))
+            tp = ("P", "p", D.labelled_points((1.0, 3.0)), (0.0, 3.0))
+            for order in ((ta, tb, tp), (tb, tp, ta), (tp, ta, tb)):
+                for op in hops:
+                    yield (order, 0.0, 4.0, op)
     # decimals: rounding must not break 'every tier shares the textgrid span'
     dsets = D.interval_sets(D.DEC[:5], 2)
     dE = tuple(sorted(set(D.DEC[:5] + D.DEC_EDGES[:3])))
